@@ -39,6 +39,7 @@ type nilSummary struct {
 	paramNonNil    []bool // parameter k is non-nil at every in-package call site (unexported functions)
 	retFields      []strset // result i: access-path suffixes (".Regions") known non-nil at every return; nil = not yet computed
 	paramFields    []strset // parameter k: suffixes known non-nil at every in-package call site
+	paramLenLo     []int64  // parameter k (slice/string): lower bound of its length over all in-package call sites
 }
 
 type NilAnalysis struct {
@@ -51,6 +52,13 @@ type NilAnalysis struct {
 	globN map[string]bool // package-level pointer variables that are non-nil after init
 	// per-instruction state for queries
 	at map[ssa.Instruction]nilFacts
+	// numeric side (numfacts*.go)
+	cur    ssa.Instruction // instruction currently being proved (context for conditional contracts)
+	curFn  *ssa.Function
+	reSub  map[string]int
+	gLen   map[string]int64
+	gArr   map[string][3]int64
+	lenSum map[*ssa.Function][]*lenSummary
 }
 
 func isNilable(t types.Type) bool {
@@ -234,7 +242,8 @@ func NewNilAnalysis(p *Prog) *NilAnalysis {
 		return p.nila
 	}
 	a := &NilAnalysis{p: p, eff: ComputeEffects(p), sum: map[*ssa.Function]*nilSummary{}, in: map[*ssa.BasicBlock]nilFacts{}, out: map[*ssa.BasicBlock]nilFacts{},
-		ctorF: map[string]bool{}, globN: map[string]bool{}, at: map[ssa.Instruction]nilFacts{}}
+		ctorF: map[string]bool{}, globN: map[string]bool{}, at: map[ssa.Instruction]nilFacts{},
+		reSub: map[string]int{}, gLen: map[string]int64{}, gArr: map[string][3]int64{}, lenSum: map[*ssa.Function][]*lenSummary{}}
 	fns := append(append([]*ssa.Function{}, p.LibFns...), p.CLIFns...)
 	for _, fn := range fns {
 		s := &nilSummary{}
@@ -253,6 +262,7 @@ func NewNilAnalysis(p *Prog) *NilAnalysis {
 	}
 	a.computeGlobals()
 	a.computeCtorFields()
+	a.computeLenSummaries()
 	for iter := 0; iter < 12; iter++ {
 		changed := false
 		for _, fn := range fns {
@@ -264,6 +274,9 @@ func NewNilAnalysis(p *Prog) *NilAnalysis {
 			changed = true
 		}
 		if a.updateCtorFields() {
+			changed = true
+		}
+		if a.updateParamLens(fns) {
 			changed = true
 		}
 		if !changed {
